@@ -148,10 +148,10 @@ def enc_classes(tx, ktypes):
             if ktypes[vals[0] - 1] == "eth":
                 cls.add("single:ethereum-type-key")
         else:
-            if len(set(vals)) != len(vals):
-                cls.add("multi:duplicate-key")
-            elif vals != sorted(vals):
+            if vals != sorted(vals):
                 cls.add("multi:unsorted-keys")
+            elif len(set(vals)) != len(vals):
+                cls.add("multi:duplicate-key")      # sorted duplicates: the builders reproduce the same bytes
             if s["nenc"] != "op" and s["n"] <= 16:
                 cls.add("multi:n-pushed-as-bytes")
         for k in s["keys"]:
@@ -160,3 +160,52 @@ def enc_classes(tx, ktypes):
             if k["push"] != "direct":
                 cls.add("%s:pubkey-push-%s" % (s["form"], {"d1": "PUSHDATA1", "d2": "PUSHDATA2", "d4": "PUSHDATA4"}[k["push"]]))
     return sorted(cls)
+
+
+# --------------------------------------------------------------------------------------------- SigHeader (C32, C33)
+HDR_CFG = """SPECIFICATION Spec
+CONSTANTS
+  N = %(N)d
+  C = %(C)d
+  LedgerSigsVerified = %(sv)d
+  LedgerMinDistinct = %(md)d
+  SyncMinListLen = %(ml)d
+  MaskByPosition = %(mask)s
+  Which = "%(which)s"
+  MaxBk = %(maxbk)d
+  MaxSigs = %(maxsigs)d
+  MaxOutsiders = %(outs)d
+  SigSlack = %(slack)d
+  AlignOpts = %(align)d
+INVARIANTS %(inv)s
+%(edge)s
+CHECK_DEADLOCK FALSE
+"""
+
+
+def hdr_cfg(N, C, sv, md, ml, mask, which, maxbk, maxsigs, inv, edge, outs=1, slack=0, align=0):
+    return HDR_CFG % dict(N=N, C=C, sv=sv, md=md, ml=ml, mask="TRUE" if mask else "FALSE", which=which, maxbk=maxbk,
+                          maxsigs=maxsigs, inv=inv, edge="ACTION_CONSTRAINT Edge" if edge else "", outs=outs, slack=slack, align=align)
+
+
+def G(k):
+    return ["g", k]
+
+
+X = ["x", 0]
+
+
+def first_accepted(obs, what, ctx):
+    for j, o in enumerate(obs):
+        if o["acc"]:
+            return j
+    ctx.infra("probe %s: the real code accepted none of the probe headers" % what)
+    return None
+
+
+def hdr_rows(rows):
+    return [{"which": r[1], "bk": r[2], "sigs": r[3], "acc": r[4], "ok": r[5], "dup": r[6]} for r in rows if r[0] == "H"]
+
+
+def hdr_str(h):
+    return "bookkeepers=%s sigs=[%s]" % (h["bk"], ",".join(s[0] + (str(s[1]) if s[1] else "") for s in h["sigs"]))
